@@ -32,6 +32,9 @@ type E2CloseResult struct {
 	PendingAtClose int
 	Kinds          map[string]int
 	Paused         bool
+	ClosedTwice    bool
+	// SecondClosePanicked: a repeated Close panicked (outside the statement; recorded as a label)
+	SecondClosePanicked bool
 }
 
 func (r *E2CloseResult) add(f string, a ...any) {
@@ -193,10 +196,6 @@ func RunC07(sc Script, plan ClosePlan, tmpBase string) *E2CloseResult {
 		res.add("Close did not return within 30 s (pending at close: %v)", res.Kinds)
 		return res
 	}
-	if plan.CloseTwice {
-		// not required by the statement; only checked not to panic or hang when it does return
-	}
-
 	// ---- every pending request completes with a non-200 status ----
 	for _, t := range pend {
 		done, state := t.p.Settle(20 * time.Second)
@@ -244,6 +243,47 @@ func RunC07(sc Script, plan ClosePlan, tmpBase string) *E2CloseResult {
 	// ---- storage released ----
 	if left := drv.DirEntries(); len(left) > 0 {
 		res.add("files left in Directory after Close: %v", left)
+	}
+	if plan.CloseTwice && len(res.Violations) == 0 {
+		// a second Close (deferred + explicit): whatever it does, once it has returned the
+		// statement's guarantees about requests must still hold. A panic of the second Close is
+		// outside the statement and only ends the case.
+		again := make(chan string, 1)
+		go func() {
+			defer func() {
+				if r := recover(); r != nil {
+					again <- fmt.Sprint(r)
+					return
+				}
+				again <- ""
+			}()
+			drv.M.Close()
+		}()
+		select {
+		case p := <-again:
+			if p != "" {
+				// the statement says nothing about a repeated Close; a panic there ends the case
+				res.SecondClosePanicked = true
+				return res
+			}
+			res.ClosedTwice = true
+		case <-time.After(30 * time.Second):
+			res.add("a second Close did not return within 30 s")
+			return res
+		}
+	}
+
+	if res.ClosedTwice {
+		for _, path := range later {
+			r := drv.Get(path)
+			if r.Status == -2 {
+				res.add("request %q issued after a second Close returned does not return: %s", path, r.BlockedOn)
+				return res
+			}
+		}
+		if left := drv.DirEntries(); len(left) > 0 {
+			res.add("files left in Directory after a second Close: %v", left)
+		}
 	}
 	return res
 }
